@@ -53,8 +53,17 @@ Record obs1 := {
   o_rows : nat; o_cols : nat;          (* agent.sigma_inv.shape *)
   o_sigma : option (list (list Q));    (* agent.sigma_inv (only at observed steps) *)
   o_arms : list (list Q);              (* features of all arms at this decision (may be empty) *)
-  o_bonus : list Q                     (* gamma^-1 * exploration bonus the implementation used, per arm (may be empty) *)
+  o_bonus : list Q;                    (* gamma^-1 * exploration bonus the implementation used, per arm (may be empty) *)
+  o_choice : option (list Q * list bool * nat)
+                                       (* action values handed to np.argmax, legality mask, arm returned by get_action *)
 }.
+
+(* the arm get_action returned is the model's masked argmax of the action values it compared *)
+Definition check_choice (ob : obs1) : bool :=
+  match o_choice ob with
+  | None => true
+  | Some (vals, legal, a) => (length vals =? length legal) && (Qmasked_argmax vals legal =? a)
+  end.
 
 (* the bonus the implementation used, squared, against the radicand g^T S g computed by the model on the
    matrix BEFORE the update:  | b^2 - g^T S g | <= tolb * (1 + g^T S g)   (b >= 0 is part of the claim) *)
@@ -103,7 +112,7 @@ Fixpoint check_trace (rr : bool) (lam tol : bigQ) (s : @bstate bigQ) (c : option
       let s' := Bstep rr s o in
       let c' := cert_step lam c o in
       check_state lam tol s' c' ob &&
-      (match o with Act _ => check_bonus (BigQ.of_Q (1 # 1024)) (sig s) ob | _ => true end) &&
+      (match o with Act _ => check_bonus (BigQ.of_Q (1 # 1024)) (sig s) ob && check_choice ob | _ => true end) &&
       check_trace rr lam tol s' c' ops' obs'
   | _, _ => false
   end.
